@@ -102,3 +102,11 @@ package record
 //@   call .PadColVal on rec.ColVals[recSchemaIdx]
 //@     requires [missing_field_pad] arg1 == 1
 
+
+// The row count of a record is the length of its last (time) column; reading it writes nothing.
+//@ prop C08 C02 C09
+//@ func (*Record).RowNums
+//@   ensures rec == nil ==> result == 0
+//@   ensures rec != nil && len(rec.ColVals) == 0 ==> result == 0
+//@   ensures rec != nil && len(rec.ColVals) > 0 ==> result == rec.ColVals[len(rec.ColVals)-1].Len
+//@   assigns nothing
